@@ -16,11 +16,12 @@ func init() { families["handshake"] = famHandshake }
 //
 //	inbound  (raw client opens against a real server)
 //	  A: init req x version{0,1,2,3,65535} x id{1,0,0xfffffffe} x params{both,no host_port,no process_name,none}
-//	     x host_port{ephemeral,real} x cut{whole,8 bytes,mid-payload}                       = 360
+//	     x host_port{ephemeral,real} x cut{whole, 8 bytes, mid-payload (stream cut short),
+//	       well-framed short frame after the count, well-framed short frame inside the params}  = 600
 //	  B: first frame of another type (11 types) x cut{whole,8 bytes}                         = 22
 //	  C: silence past the deadline                                                            = 1
 //	outbound (real client connects to a raw server)
-//	  D: reply init res x version(5) x id{echo,wrong} x params(4) x host_port(2) x cut(3)    = 240
+//	  D: reply init res x version(5) x id{echo,wrong} x params(4) x host_port(2) x cut(5)    = 400
 //	  E: reply of another type (6 types) x id{echo,wrong}                                    = 12
 //	  F: silence                                                                             = 1
 //
@@ -33,10 +34,10 @@ var (
 )
 
 const (
-	hsA = 5 * 3 * 4 * 2 * 3
+	hsA = 5 * 3 * 4 * 2 * 5
 	hsB = 11 * 2
 	hsC = 1
-	hsD = 5 * 2 * 4 * 2 * 3
+	hsD = 5 * 2 * 4 * 2 * 5
 	hsE = 6 * 2
 	hsF = 1
 )
@@ -58,6 +59,19 @@ func hsParams(sel int, hostPort, proc string) []wire.KV {
 
 func hsCut(b []byte, cut int) ([]byte, bool) {
 	switch cut {
+	case 3, 4:
+		// a WELL-FRAMED short message: the header declares exactly the bytes sent, but
+		// the message needs more (decoding must not look past the declared size)
+		n := wire.HeaderSize + 4 // version and the parameter count, no parameters
+		if cut == 4 && len(b) > wire.HeaderSize+12 {
+			n = wire.HeaderSize + 4 + (len(b)-wire.HeaderSize-4)/2 // inside the parameters
+		}
+		if n >= len(b) {
+			return b, false
+		}
+		o := append([]byte(nil), b[:n]...)
+		o[0], o[1] = byte(n>>8), byte(n)
+		return o, true
 	case 1:
 		return b[:8], true
 	case 2:
@@ -103,7 +117,9 @@ func famHandshake(w *World) {
 	}
 	w.drawSchedule(false)
 	w.linkDefaults()
-	srv := w.addNode(NodeOpts{Name: "s0", Service: "svc0", Host: "10.0.2.1", Port: 5000, Conn: w.connOptsBig()})
+	// frames are reused without clearing, like a real pool: a decoder that looks past the
+	// declared frame size sees the bytes of an earlier message
+	srv := w.addNode(NodeOpts{Name: "s0", Service: "svc0", Host: "10.0.2.1", Port: 5000, Conn: w.connOptsBig(), PoolReuse: true})
 	srv.Ch.Register(&echoHandler{w: w, n: srv}, "echo")
 	w.probe("ops.done")
 	switch {
@@ -144,8 +160,8 @@ func (w *World) hsInbound(srv *Node, c int) {
 	switch {
 	case c < hsA:
 		x := c
-		cut := x % 3
-		x /= 3
+		cut := x % 5
+		x /= 5
 		hp := x % 2
 		x /= 2
 		ps := x % 4
@@ -274,7 +290,7 @@ func (w *World) hsInbound(srv *Node, c int) {
 }
 
 func (w *World) hsOutbound(c int) {
-	cli := w.addNode(NodeOpts{Name: "c0", Service: "client0", Host: "10.0.3.1", Conn: w.connOptsBig()})
+	cli := w.addNode(NodeOpts{Name: "c0", Service: "client0", Host: "10.0.3.1", Conn: w.connOptsBig(), PoolReuse: true})
 	rs := w.newRawPeer("rawsrv", "10.0.8.1")
 	var desc string
 	wantAccept := false
@@ -284,8 +300,8 @@ func (w *World) hsOutbound(c int) {
 	switch {
 	case c < hsD:
 		x := c
-		cut := x % 3
-		x /= 3
+		cut := x % 5
+		x /= 5
 		hp := x % 2
 		x /= 2
 		ps := x % 4
